@@ -33,6 +33,8 @@ import (
 
 var env *sqdb.Env
 
+var genCount int
+
 // another process that can hold a read lock on the shared range
 var peer *locks.Peer
 
@@ -84,12 +86,20 @@ func TestC09Crash(t *testing.T) {
 		},
 		Teardown: func() { peer.Stop(); env.Close() },
 		Gen: func(t *rapid.T) spec {
+			// A case is expensive (every crash point of a transaction), so a
+			// quick run has few of them: the writer's configuration is dealt
+			// out in turn (by shard and by the number of the case in this
+			// process) instead of drawn, so that every run meets every journal
+			// mode, sector size and synchronous setting.
+			shard, _ := vt.Shard()
+			k := genCount
+			genCount++
 			s := spec{
 				PageSize:    rapid.SampledFrom([]int{512, 512, 1024, 4096}).Draw(t, "ps"),
-				JournalMode: rapid.SampledFrom([]string{"DELETE", "TRUNCATE", "PERSIST"}).Draw(t, "jm"),
+				JournalMode: []string{"DELETE", "TRUNCATE", "PERSIST"}[(k+shard)%3],
 				Rows:        rapid.SampledFrom([]int{30, 80, 150}).Draw(t, "rows"),
-				BigSector:   rapid.IntRange(0, 2).Draw(t, "bigsector") == 0,
-				Sync:        rapid.SampledFrom([]string{"", "", "NORMAL", "OFF", "OFF", "EXTRA"}).Draw(t, "sync"),
+				BigSector:   (k+2*shard)%3 == 0,
+				Sync:        []string{"", "OFF", "NORMAL", "OFF", "", "EXTRA"}[(5*k+shard)%6],
 			}
 			n := rapid.IntRange(1, 4).Draw(t, "nstmts")
 			for i := 0; i < n; i++ {
